@@ -1,0 +1,217 @@
+//go:build verif
+
+// Machine-checked contracts for this package (guard: build tag `verif`; this file contains comments only).
+// Read by /verif/bin/govc: each `//@ unit` section is one verification unit (the functions matching `filter`,
+// verified against the contracts of the section; callees are used through their contracts only).
+
+package proxy
+
+//@ unit policies props=C05 filter=`proxy\.(First|Random|LeastConn|RoundRobin)\)\.Select$|hostByHashing$`
+//@ func (*UpstreamHost).Down
+//@   pure reads UpstreamHost
+//@ func (*UpstreamHost).Full
+//@   pure reads UpstreamHost
+//@   ensures result == (uh.MaxConns > 0 && uh.Conns >= uh.MaxConns)
+//@ func (*UpstreamHost).Available
+//@   pure reads UpstreamHost
+//@   ensures result == (!uh.Down() && !uh.Full())
+//@ func hash
+//@   pure
+
+//@ func (*First).Select
+//@   requires forall(k, 0, len(pool), pool[k] != nil)
+//@   ensures [returns_available] result == nil || (exists(k, 0, len(pool), pool[k] == result) && result.Available())
+//@   ensures [finds_available] result == nil ==> forall(k, 0, len(pool), !pool[k].Available())
+//@   ensures [earliest] result != nil ==> exists(k, 0, len(pool), pool[k] == result && forall(j, 0, k, !pool[j].Available()))
+//@   loop 1 invariant 0 <= #i && #i <= len(pool)
+//@   loop 1 invariant forall(k, 0, #i, !pool[k].Available())
+
+//@ func (*Random).Select
+//@   requires forall(k, 0, len(pool), pool[k] != nil)
+//@   ensures [returns_available] result == nil || (exists(k, 0, len(pool), pool[k] == result) && result.Available())
+//@   ensures [finds_available] result == nil ==> forall(k, 0, len(pool), !pool[k].Available())
+//@   loop 1 invariant 0 <= #i && #i <= len(pool)
+//@   loop 1 invariant count >= 0 && ((count == 0) == (randHost == nil))
+//@   loop 1 invariant randHost != nil ==> (exists(k, 0, #i, pool[k] == randHost) && randHost.Available())
+//@   loop 1 invariant count == 0 ==> forall(k, 0, #i, !pool[k].Available())
+
+//@ func (*LeastConn).Select
+//@   requires forall(k, 0, len(pool), pool[k] != nil)
+//@   ensures [returns_available] result == nil || (exists(k, 0, len(pool), pool[k] == result) && result.Available())
+//@   ensures [finds_available] result == nil ==> forall(k, 0, len(pool), !pool[k].Available())
+//@   ensures [least_loaded] result != nil ==> forall(k, 0, len(pool), pool[k].Available() ==> result.Conns <= pool[k].Conns)
+//@   loop 1 invariant 0 <= #i && #i <= len(pool)
+//@   loop 1 invariant count >= 0 && ((count == 0) == (bestHost == nil))
+//@   loop 1 invariant count == 0 ==> forall(k, 0, #i, !pool[k].Available())
+//@   loop 1 invariant count == 0 ==> leastConn == 9223372036854775807
+//@   loop 1 invariant bestHost != nil ==> (exists(k, 0, #i, pool[k] == bestHost) && bestHost.Available() && bestHost.Conns == leastConn)
+//@   loop 1 invariant forall(k, 0, #i, pool[k].Available() ==> leastConn <= pool[k].Conns)
+
+//@ func hostByHashing
+//@   requires 2 <= len(pool) && len(pool) < 2147483648
+//@   requires forall(k, 0, len(pool), pool[k] != nil)
+//@   ensures [returns_available] result == nil || (exists(k, 0, len(pool), pool[k] == result) && result.Available())
+//@   ensures [first_probe] result == nil ==> !pool[int(hash(s) % uint32(len(pool)))].Available()
+//@   ensures [finds_available] result == nil ==> forall(k, 0, len(pool), !pool[k].Available())
+//@   loop 1 invariant i <= poolLen && poolLen == uint32(len(pool)) && index < 4294967296
+//@   loop 1 invariant i >= 1 ==> !pool[int(hash(s) % uint32(len(pool)))].Available()
+//@   loop 1 invariant i == 0 ==> index == hash(s) % uint32(len(pool))
+//@   loop 1 decreases poolLen - i
+
+//@ func (*RoundRobin).Select
+//@   requires r != nil && 1 <= len(pool) && len(pool) < 2147483648
+//@   requires forall(k, 0, len(pool), pool[k] != nil)
+//@   modifies RoundRobin.robin
+//@   ensures [lock_balance] held(r.mutex) == old(held(r.mutex))
+//@   ensures [returns_available] result == nil || (exists(k, 0, len(pool), pool[k] == result) && result.Available())
+//@   ensures [next_after_counter] result == nil ==> !pool[int((old(r.robin) + 1) % uint32(len(pool)))].Available()
+//@   ensures [finds_available] result == nil ==> forall(k, 0, len(pool), !pool[k].Available())
+//@   loop 1 invariant i <= poolLen
+//@   loop 1 invariant poolLen == uint32(len(pool))
+//@   loop 1 invariant r.robin == old(r.robin) + i
+//@   loop 1 invariant i >= 1 ==> !pool[int((old(r.robin) + 1) % uint32(len(pool)))].Available()
+//@   loop 1 decreases poolLen - i
+
+//@ unit joining_slash props=C04 filter=`proxy\.singleJoiningSlash$`
+//@ extern strings.HasSuffix
+//@   pure
+//@   ensures len(suffix) == 1 ==> result == (len(s) >= 1 && s[len(s)-1] == suffix[0])
+//@ extern strings.HasPrefix
+//@   pure
+//@   ensures len(prefix) == 1 ==> result == (len(s) >= 1 && s[0] == prefix[0])
+
+//@ define endsSlash(x string) bool = len(x) >= 1 && x[len(x)-1] == '/'
+//@ define startsSlash(x string) bool = len(x) >= 1 && x[0] == '/'
+
+//@ func singleJoiningSlash
+//@   ensures [both] (endsSlash(a) && startsSlash(b)) ==> result == a + b[1:]
+//@   ensures [neither] (!endsSlash(a) && !startsSlash(b) && b != "") ==> result == a + "/" + b
+//@   ensures [one] ((endsSlash(a) != startsSlash(b)) || (!endsSlash(a) && b == "")) ==> result == a + b
+//@   ensures [length] len(result) <= len(a) + len(b) + 1 && len(result) >= len(a) + len(b) - 1
+
+//@ unit proxy_conns props=C05 filter=`proxy\.Proxy\)\.ServeHTTP$`
+//@ func (*ReverseProxy).ServeHTTP
+//@   may_panic
+
+//@ func (Proxy).ServeHTTP
+//@   may_panic
+//@   ensures [conns_balance] unchanged("UpstreamHost.Conns")
+//@   ensures_on_panic [conns_balance_p] unchanged("UpstreamHost.Conns")
+//@   loop 1 invariant unchanged("UpstreamHost.Conns")
+
+//@ unit upstream_request props=C04 filter=`proxy\.createUpstreamRequest$`
+//@ spec canon(s string) string
+//@ invariant forall(j, 0, len(hopHeaders), canon(hopHeaders[j]) == hopHeaders[j] && hopHeaders[j] != "X-Forwarded-For")
+
+//@ spec ntok(s string) int
+//@ spec tok(s string, i int) string
+//@ spec trim(s string) string
+//@ invariant canon("Connection") == "Connection" && canon("X-Forwarded-For") == "X-Forwarded-For"
+//@ axiom (b int) trim(tok("", b)) == ""
+//@ extern (net/http.Header).Get
+//@   pure reads MV:map[string][]string, MD:map[string][]string, E:string
+//@   ensures (has(h, canon(key)) && len(h[canon(key)]) > 0) ==> result == h[canon(key)][0]
+//@   ensures !has(h, canon(key)) ==> result == ""
+//@ extern (net/http.Header).Del
+//@   modifies MV:map[string][]string, MD:map[string][]string
+//@   ensures !has(h, canon(key)) && forallT(k, string, k != canon(key) ==> (has(h, k) == old(has(h, k)) && h[k] == old(h[k])))
+//@   ensures forallT(m, http.Header, m != h ==> forallT(k, string, has(m, k) == old(has(m, k)) && m[k] == old(m[k])))
+//@ extern (net/http.Header).Set
+//@   modifies MV:map[string][]string, MD:map[string][]string
+//@   ensures has(h, canon(key)) && forallT(k, string, k != canon(key) ==> (has(h, k) == old(has(h, k)) && h[k] == old(h[k])))
+//@   ensures forallT(m, http.Header, m != h ==> forallT(k, string, has(m, k) == old(has(m, k)) && m[k] == old(m[k])))
+//@ extern (*net/http.Request).WithContext
+//@   ensures result != nil && result != r && result.Header == r.Header && result.Body == r.Body && result.Method == r.Method && result.URL == r.URL
+//@ extern (*net/http.Request).Context
+//@ extern context.WithCancel
+//@ extern strings.Split
+//@   ensures len(result) == ntok(s) && forall(i, 0, len(result), result[i] == tok(s, i))
+//@ extern strings.TrimSpace
+//@   ensures result == trim(s)
+//@ extern strings.Join
+//@ extern net.SplitHostPort
+
+//@ func copyHeader
+//@   modifies MV:map[string][]string, MD:map[string][]string
+//@   requires dst != nil
+//@   ensures forallT(k, string, has(dst, k) == (old(has(dst, k)) || has(src, k)))
+//@   ensures forallT(m, http.Header, m != dst ==> forallT(k, string, has(m, k) == old(has(m, k)) && m[k] == old(m[k])))
+
+//@ define nm(v string, b int) string = canon(trim(tok(v, b)))
+//@ define named(v string, b int) bool = trim(tok(v, b)) != "" && nm(v, b) != "X-Forwarded-For"
+//@ func createUpstreamRequest
+//@   requires r != nil && r.Header != nil
+//@   modifies MV:map[string][]string, MD:map[string][]string, Request.Header, Request.Body
+//@   ensures [fresh_request] result0 != nil && result0 != r && result0.Header != nil
+//@   ensures [hop_removed] forall(j, 0, len(hopHeaders), !has(result0.Header, hopHeaders[j]))
+//@   ensures [connection_first_value] (old(has(r.Header, "Connection")) && len(old(r.Header["Connection"])) > 0) ==> forall(b, 0, ntok(old(r.Header["Connection"][0])), named(old(r.Header["Connection"][0]), b) ==> !has(result0.Header, nm(old(r.Header["Connection"][0]), b)))
+//@   ensures [connection_all_values] old(has(r.Header, "Connection")) ==> forall(a, 0, len(old(r.Header["Connection"])), forall(b, 0, ntok(old(r.Header["Connection"][a])), named(old(r.Header["Connection"][a]), b) ==> !has(result0.Header, nm(old(r.Header["Connection"][a]), b))))
+//@   ensures [client_headers_untouched] r.Header == old(r.Header) && forallT(k, string, k != "X-Forwarded-For" ==> (has(r.Header, k) == old(has(r.Header, k)) && r.Header[k] == old(r.Header[k])))
+//@   loop 1 invariant outreq != nil && outreq != r && outreq.Header != nil && r.Header == old(r.Header)
+//@   loop 1 invariant 0 <= #i && #i <= ntok(c) && forall(b, 0, #i, named(c, b) ==> !has(outreq.Header, nm(c, b)))
+//@   loop 1 invariant copiedHeaders || outreq.Header == r.Header
+//@   loop 1 invariant copiedHeaders ==> outreq.Header != r.Header
+//@   loop 1 invariant forallT(k, string, has(r.Header, k) == old(has(r.Header, k)) && r.Header[k] == old(r.Header[k]))
+//@   loop 2 invariant 0 <= #i && #i <= len(hopHeaders) && outreq != nil && outreq != r && outreq.Header != nil && r.Header == old(r.Header)
+//@   loop 2 invariant forall(j, 0, #i, !has(outreq.Header, hopHeaders[j]))
+//@   loop 2 invariant forall(b, 0, ntok(c), named(c, b) ==> !has(outreq.Header, nm(c, b)))
+//@   loop 2 invariant copiedHeaders || outreq.Header == r.Header
+//@   loop 2 invariant copiedHeaders ==> outreq.Header != r.Header
+//@   loop 2 invariant forallT(k, string, has(r.Header, k) == old(has(r.Header, k)) && r.Header[k] == old(r.Header[k]))
+
+//@ unit header_rules props=C04 filter=`proxy\.mutateHeadersByRules$`
+//@ spec canon(s string) string
+//@ spec stripPlus(s string) string
+//@ spec stripMinus(s string) string
+//@ extern strings.HasPrefix
+//@   pure
+//@ extern strings.TrimPrefix
+//@   pure
+//@ extern (net/http.Header).Get
+//@   pure reads MV:map[string][]string, MD:map[string][]string, E:string
+//@ extern (net/http.Header).Del
+//@   modifies MV:map[string][]string, MD:map[string][]string
+//@   ensures forallT(k, string, k != canon(key) ==> (has(h, k) == old(has(h, k)) && h[k] == old(h[k])))
+//@   ensures forallT(m, http.Header, m != h ==> forallT(k, string, has(m, k) == old(has(m, k)) && m[k] == old(m[k])))
+//@ extern (net/http.Header).Set
+//@   modifies MV:map[string][]string, MD:map[string][]string
+//@   ensures forallT(k, string, k != canon(key) ==> (has(h, k) == old(has(h, k)) && h[k] == old(h[k])))
+//@   ensures forallT(m, http.Header, m != h ==> forallT(k, string, has(m, k) == old(has(m, k)) && m[k] == old(m[k])))
+//@ extern (net/http.Header).Add
+//@   modifies MV:map[string][]string, MD:map[string][]string
+//@   ensures forallT(k, string, k != canon(key) ==> (has(h, k) == old(has(h, k)) && h[k] == old(h[k])))
+//@   ensures forallT(m, http.Header, m != h ==> forallT(k, string, has(m, k) == old(has(m, k)) && m[k] == old(m[k])))
+//@ extern invoke:(github.com/tmpim/casket/caskethttp/httpserver.Replacer).Replace
+//@ extern (*regexp.Regexp).ReplaceAllString
+
+//@ define touched(k string) bool = existsT(f, string, has(rules, f) && (k == canon(f) || k == canon(strings.TrimPrefix(f, "+")) || k == canon(strings.TrimPrefix(f, "-")))) || existsT(f, string, has(replacements, f) && k == canon(f))
+//@ define kept(k string) bool = has(headers, k) == old(has(headers, k)) && headers[k] == old(headers[k])
+
+//@ func mutateHeadersByRules
+//@   requires headers != nil && headers != rules
+//@   modifies MV:map[string][]string, MD:map[string][]string
+//@   ensures [untouched_keys_kept] forallT(k, string, !touched(k) ==> kept(k))
+//@   ensures [rules_not_modified] forallT(k, string, has(rules, k) == old(has(rules, k)) && rules[k] == old(rules[k]))
+//@   loop 1 invariant forallT(k, string, !touched(k) ==> kept(k)) && forallT(k, string, has(rules, k) == old(has(rules, k)) && rules[k] == old(rules[k]))
+//@   loop 2 invariant forallT(k, string, !touched(k) ==> kept(k)) && forallT(k, string, has(rules, k) == old(has(rules, k)) && rules[k] == old(rules[k])) && has(rules, ruleField)
+//@   loop 3 invariant forallT(k, string, !touched(k) ==> kept(k)) && forallT(k, string, has(rules, k) == old(has(rules, k)) && rules[k] == old(rules[k]))
+//@   loop 4 invariant forallT(k, string, !touched(k) ==> kept(k)) && forallT(k, string, has(rules, k) == old(has(rules, k)) && rules[k] == old(rules[k])) && has(replacements, ruleField)
+
+//@ unit upstream_select props=C05 filter=`proxy\.staticUpstream\)\.Select$`
+//@ func (*UpstreamHost).Available
+//@   pure reads UpstreamHost.Unhealthy, UpstreamHost.Fails, UpstreamHost.Conns, UpstreamHost.MaxConns, UpstreamHost.CheckDown
+//@   requires uh != nil
+//@ extern invoke:(github.com/tmpim/casket/caskethttp/proxy.Policy).Select
+//@   requires len(pool) >= 2 && exists(k, 0, len(pool), pool[k].Available())
+//@   ensures result == nil || (exists(k, 0, len(pool), result == pool[k]) && result.Available())
+//@   ensures [finds_available] result != nil
+//@ func (*Random).Select
+//@   requires len(pool) >= 2 && exists(k, 0, len(pool), pool[k].Available())
+//@   ensures result == nil || (exists(k, 0, len(pool), result == pool[k]) && result.Available())
+//@   ensures [finds_available] result != nil
+
+//@ func (*staticUpstream).Select
+//@   requires u != nil && forall(k, 0, len(u.Hosts), u.Hosts[k] != nil)
+//@   ensures [returns_available] result == nil || (exists(k, 0, len(u.Hosts), result == u.Hosts[k]) && result.Available())
+//@   ensures [nil_only_if_none_available] result == nil ==> forall(k, 0, len(u.Hosts), !u.Hosts[k].Available())
+//@   loop 1 invariant 0 <= #i && #i <= len(pool) && pool == u.Hosts && (allUnavailable ==> forall(k, 0, #i, !pool[k].Available()))
